@@ -5,15 +5,17 @@ pub mod c01;
 pub mod c03;
 pub mod c15;
 pub mod instr;
+pub mod iter;
 pub mod c23;
-// pub mod c24_table;
+pub mod c24;
+pub mod c24_table;
 pub mod common;
 pub mod edit;
 pub mod edits;
 pub mod small;
 
 pub fn all_ids() -> Vec<&'static str> {
-    vec!["C01", "C02", "C03", "C06", "C07", "C08", "C09", "C10", "C11", "C12", "C13", "C14", "C15", "C21", "C22", "C23", "C28", "C29", "C30"]
+    vec!["C01", "C02", "C03", "C06", "C07", "C08", "C09", "C10", "C11", "C12", "C13", "C14", "C15", "C21", "C22", "C23", "C24", "C25", "C28", "C29", "C30"]
 }
 
 pub fn get(id: &str) -> Option<Box<dyn Driver>> {
@@ -34,6 +36,8 @@ pub fn get(id: &str) -> Option<Box<dyn Driver>> {
         "C21" => Box::new(c15::BlockAlt),
         "C22" => Box::new(c15::SpecialNotLost),
         "C23" => Box::new(c23::SideEffects),
+        "C24" => Box::new(c24::OpcodeHelpers),
+        "C25" => Box::new(iter::ModuleIter),
         "C28" => Box::new(small::CustomSections),
         "C29" => Box::new(edits::c29()),
         "C30" => Box::new(edits::c30()),
